@@ -435,6 +435,77 @@ func runC11(r *Run) {
 				"a per-period part of SubtractAmountFromPeriods is not computed as Int.Mul(period amount, requested amount).Quo(total): dividing first, or multiplying by a rounded share, loses or gains units per period")
 		}
 	}
+	r.Rule("R12", "PATH.record-deleted-only-when-its-schedule-is-empty + FLOW.modified-record-is-written-back: (a) Redeem deletes a liquid token's record (and switches its conversion off) only over the true edge of `<remaining periods>.TotalAmount().IsZero()`, the remaining periods being SubtractAmountFromPeriods' result for this very redemption — any other test ('the supply equals the redeemed amount', read after the burn) deletes the record while tokens still circulate, and their escrow can never be redeemed; (b) Haqq code outside the liquid-vesting keeper's own setters that stores into a field of a local copy of a Denom record (the v1.7.4 handler stretching a token's schedule sets LockupPeriods and EndTime) passes that copy to SetDenom on every path to its exit: writing the periods through a narrower setter leaves the record's EndTime stale, and ExtractUpcomingPeriods then reports 'nothing upcoming' so that a redemption releases the coins unlocked")
+	if rd, ok := P.FnOK("(" + lk + ".Keeper).Redeem"); ok {
+		isDel := isCallMatching(func(ci CallInfo) bool { return ci.Name == "DeleteDenom" })
+		pass, _ := guardPassEdges(rd, func(cond ssa.Value) (bool, bool) {
+			c, ok := cond.(*ssa.Call)
+			if !ok || callInfo(c).Name != "IsZero" || len(c.Call.Args) == 0 {
+				return false, false
+			}
+			sl := backSlice(c.Call.Args[0])
+			okTot := sl.HasCall(func(g CallInfo) bool { return g.Name == "TotalAmount" }) && sl.Any(func(v ssa.Value) bool {
+				ex, isE := v.(*ssa.Extract)
+				if !isE || ex.Index != 0 {
+					return false
+				}
+				cc, isC := ex.Tuple.(*ssa.Call)
+				return isC && callInfo(cc).Name == "SubtractAmountFromPeriods"
+			})
+			return true, okTot
+		})
+		w := PathQuery{Fn: rd, Target: isDel, DelEdge: edgeSet(pass)}.Search()
+		nDel := len(findCalls(rd, func(ci CallInfo) bool { return ci.Name == "DeleteDenom" }))
+		r.Check(w == nil && len(pass) > 0 && nDel >= 1, "R12", fnID(rd)+"#record-deleted-only-when-empty", P.Pos(fnPos(rd)), "DeleteDenom only over decreasedPeriods.TotalAmount().IsZero()",
+			"Redeem can delete the liquid token's record on a path that did not establish that the remaining schedule (this redemption's SubtractAmountFromPeriods result) is empty: the record disappears and conversion is switched off while tokens are still outstanding", P.witness(w)...)
+	} else {
+		r.Bad("R12", "anchor/Redeem", "", "not found")
+	}
+	{
+		nWB := 0
+		for _, fn := range P.Funcs {
+			if isTestSupport(P, fn) || fn.Synthetic != "" || !isHaqqPath(fnPkgPath(fn)) || pathHasSuffix(fnPkgPath(fn), "x/liquidvesting/types") || isGeneratedFile(P.FileOf(fnPos(outermost(fn)))) {
+				continue
+			}
+			// the keeper's own setters assemble the record they store
+			if pathHasSuffix(fnPkgPath(fn), lk) && (fn.Name() == "UpdateDenomPeriods" || fn.Name() == "CreateDenom" || fn.Name() == "SetDenom") {
+				continue
+			}
+			seen := map[ssa.Value]bool{}
+			eachInstr(fn, func(in ssa.Instruction) {
+				st, ok := in.(*ssa.Store)
+				if !ok {
+					return
+				}
+				fa, ok := st.Addr.(*ssa.FieldAddr)
+				if !ok || namedName(deref(fa.X.Type())) != "Denom" || !strings.Contains(namedPkgPath(deref(fa.X.Type())), "x/liquidvesting/types") {
+					return
+				}
+				root := addrRoot(fa.X)
+				if seen[root] {
+					return
+				}
+				seen[root] = true
+				nWB++
+				isWB := func(x ssa.Instruction) bool {
+					c, ok := x.(ssa.CallInstruction)
+					if !ok || callInfo(c).Name != "SetDenom" {
+						return false
+					}
+					for _, a := range c.Common().Args {
+						if u, ok := a.(*ssa.UnOp); ok && addrRoot(u.X) == root {
+							return true
+						}
+					}
+					return false
+				}
+				w := PathQuery{Fn: fn, Start: in, Block: isWB, Target: func(x ssa.Instruction) bool { _, ok := x.(*ssa.Return); return ok }}.Search()
+				r.Check(w == nil, "R12", fmt.Sprintf("%s#modified-denom-record-written-back", fnID(outermost(fn))), P.Pos(instrPos(in)), "every path from the field store to the exit passes SetDenom(copy)",
+					"a field of a local copy of a liquid-token record is changed but the copy is not written back with SetDenom on every path: part of the change (the record's EndTime) is lost", P.witness(w)...)
+			})
+		}
+		r.Count("R12 local Denom copies modified outside the keeper's setters", nWB)
+	}
 	r.Rule("R3", "FLOW.schedule-stored-unmodified: UpdateDenomPeriods stores its periods parameter itself into Denom.LockupPeriods and then SetDenom; CreateDenom stores its periods parameter itself and an EndTime derived from start + periods.TotalLength()")
 	if fn, ok := P.FnOK("(" + lk + ".Keeper).UpdateDenomPeriods"); ok {
 		okSt, n := true, 0
